@@ -17,5 +17,14 @@ MCKinds == {
   K(V("none", "mut"), <<"none">>, NoV, "ref"),
   K(NoV, <<"none">>, V("mut", "none"), "none"),
   K(V("none", "mut"), <<"none">>, V("ref", "none"), "none") }
+MCKinds4 == {
+  K(V("mut", "none"), <<"none">>, NoV, "none"),
+  K(V("ref", "none"), <<"none">>, NoV, "none"),
+  K(V("none", "mut"), <<"none">>, NoV, "none"),
+  K(V("none", "ref"), <<"none">>, NoV, "none"),
+  K(V("mut", "none"), <<"has", "Y">>, NoV, "none"),
+  K(V("none", "ref"), <<"none">>, NoV, "mut"),
+  K(NoV, <<"none">>, V("mut", "none"), "none") }
+MCArchs2 == {{"X"}, {"X", "Y"}}
 MCArchs == {{"X"}, {"Y"}, {"X", "Y"}}
 =============================================================================
